@@ -314,3 +314,142 @@ func ruleReflectZero(w *World, r *Report, rule string, fns []*ssa.Function, exce
 	}
 	return n
 }
+
+// REFLECT-ADDR: a reflect.Value obtained from Value.MapIndex is never addressable, and neither is a struct
+// field reached through it: Set on it panics and CanSet is false (the repo's setters then report "field not
+// exported" and the caller panics "must succeed"). Taint from MapIndex results, through phis, Field /
+// FieldByName, and module-internal calls (argument -> parameter, derived return values), to the receiver of
+// a Set* method. Elem() ends the taint (pointer targets are addressable).
+
+type addrHit struct {
+	fn   *ssa.Function
+	sink ssa.Instruction
+	src  ssa.Instruction
+}
+
+func reflectNonAddrHits(w *World, fns []*ssa.Function) []addrHit {
+	inScope := map[*ssa.Function]bool{}
+	for _, f := range fns {
+		inScope[f] = true
+	}
+	tainted := map[ssa.Value]ssa.Instruction{} // value -> originating MapIndex
+	var work []ssa.Value
+	mark := func(v ssa.Value, src ssa.Instruction) {
+		if v == nil || !isReflectValue(v.Type()) {
+			if t, ok := v.Type().(*types.Tuple); !ok || t.Len() == 0 {
+				return
+			}
+		}
+		if _, done := tainted[v]; done {
+			return
+		}
+		tainted[v] = src
+		work = append(work, v)
+	}
+	for _, f := range fns {
+		instrs(f, func(in ssa.Instruction) {
+			if c, ok := in.(*ssa.Call); ok && calleeFullName(c) == "(reflect.Value).MapIndex" {
+				mark(c, c)
+			}
+		})
+	}
+	var hits []addrHit
+	seenSink := map[ssa.Instruction]bool{}
+	for len(work) > 0 {
+		v := work[len(work)-1]
+		work = work[:len(work)-1]
+		src := tainted[v]
+		refs := v.Referrers()
+		if refs == nil {
+			continue
+		}
+		for _, ref := range *refs {
+			switch u := ref.(type) {
+			case *ssa.Phi:
+				// an edge taken only when v.CanAddr() held carries an addressable value
+				carries := false
+				for i, e := range u.Edges {
+					if e != v {
+						continue
+					}
+					p := u.Block().Preds[i]
+					if canAddrGuarded(p, v) || edgeCanAddrTrue(p, u.Block(), v) {
+						continue
+					}
+					carries = true
+				}
+				if carries {
+					mark(u, src)
+				}
+			case *ssa.Extract:
+				if isReflectValue(u.Type()) {
+					mark(u, src)
+				}
+			case *ssa.Store:
+				// local cell
+				if al, ok := u.Addr.(*ssa.Alloc); ok && u.Val == v {
+					for _, l := range *al.Referrers() {
+						if lo, ok := l.(*ssa.UnOp); ok {
+							mark(lo, src)
+						}
+					}
+				}
+			case *ssa.Return:
+				// handled at call sites below (callee summaries by re-scanning callers)
+				fn := u.Parent()
+				for _, caller := range fns {
+					for _, c := range callsTo(caller, fn) {
+						if cv, ok := c.(ssa.Value); ok {
+							mark(cv, src)
+						}
+					}
+				}
+			case ssa.CallInstruction:
+				com := u.Common()
+				name := calleeFullName(u)
+				if strings.HasPrefix(name, "(reflect.Value).") && len(com.Args) > 0 && com.Args[0] == v {
+					m := strings.TrimPrefix(name, "(reflect.Value).")
+					switch {
+					case m == "Field" || m == "FieldByName" || m == "FieldByIndex":
+						if cv, ok := u.(ssa.Value); ok {
+							mark(cv, src)
+						}
+					case strings.HasPrefix(m, "Set") && m != "SetMapIndex":
+						if !seenSink[u] {
+							seenSink[u] = true
+							hits = append(hits, addrHit{u.Parent(), u, src})
+						}
+					}
+					continue
+				}
+				if sc := staticCallee(u); sc != nil && inScope[origin(sc)] {
+					for i, a := range com.Args {
+						if a == v && i < len(sc.Params) {
+							mark(origin(sc).Params[i], src)
+						}
+					}
+				}
+			}
+		}
+	}
+	return hits
+}
+
+func canAddrGuarded(b *ssa.BasicBlock, v ssa.Value) bool {
+	return hasGuard(b, func(g guard) bool {
+		c, ok := g.cond.(*ssa.Call)
+		return ok && g.pol && calleeFullName(c) == "(reflect.Value).CanAddr" && valueAlias(c.Call.Args[0], v)
+	})
+}
+
+func edgeCanAddrTrue(p, succ *ssa.BasicBlock, v ssa.Value) bool {
+	iff, ok := p.Instrs[len(p.Instrs)-1].(*ssa.If)
+	if !ok {
+		return false
+	}
+	c, ok := iff.Cond.(*ssa.Call)
+	if !ok || calleeFullName(c) != "(reflect.Value).CanAddr" || !valueAlias(c.Call.Args[0], v) {
+		return false
+	}
+	return p.Succs[0] == succ
+}
